@@ -31,3 +31,42 @@ package routingtable
 //@ contract RouteTableClient.AddPath, RouteTableClient.AddPathInitialDump, RouteTableClient.RemovePath, RouteTableClient.ReplacePath
 //@   props C06 C12 C20
 //@   preserves type route.Path, route.BGPPath, route.BGPPathA
+
+// Property C09: the export rules that do not depend on the session's policy.
+//@ import "github.com/bio-routing/bio-rd/protocols/bgp/types"
+//@ spec
+//@ func spec_hasCommunity(p *route.Path, c uint32) bool {
+//@ 	if p.BGPPath == nil || p.BGPPath.Communities == nil {
+//@ 		return false
+//@ 	}
+//@ 	cs := *p.BGPPath.Communities
+//@ 	return verif_exists(0, len(cs), func(i int) bool { return cs[i] == c })
+//@ }
+//@ end
+
+//@ contract isDisallowedByCommunity
+//@   props C09
+//@   requires p != nil && sa != nil
+//@   ensures spec_hasCommunity(p, types.WellKnownCommunityNoAdvertise) ==> result
+//@   ensures !sa.IBGP && spec_hasCommunity(p, types.WellKnownCommunityNoExport) ==> result
+//@   modifies nothing
+//@   loop 0 vars rangeindex int
+//@   loop 0 invariant forall(j, 0, rangeindex+1, (*p.BGPPath.Communities)[j] != types.WellKnownCommunityNoAdvertise && (sa.IBGP || (*p.BGPPath.Communities)[j] != types.WellKnownCommunityNoExport))
+
+//@ contract isOwnPath
+//@   props C09
+//@   requires p != nil && sa != nil
+//@   requires p.Type == route.BGPPathType ==> p.BGPPath != nil && p.BGPPath.BGPPathA != nil && p.BGPPath.BGPPathA.Source != nil && sa.PeerIP != nil
+//@   ensures p.Type == route.BGPPathType && sa.Type == route.BGPPathType && *p.BGPPath.BGPPathA.Source == *sa.PeerIP ==> result
+//@   modifies nothing
+
+// A route is not sent with NO_ADVERTISE, not with NO_EXPORT to an eBGP peer, and
+// not back to the peer it was learned from.
+//@ contract ShouldPropagateUpdate
+//@   props C09
+//@   requires p != nil && sa != nil
+//@   requires p.Type == route.BGPPathType ==> p.BGPPath != nil && p.BGPPath.BGPPathA != nil && p.BGPPath.BGPPathA.Source != nil && sa.PeerIP != nil
+//@   ensures result ==> !spec_hasCommunity(p, types.WellKnownCommunityNoAdvertise)
+//@   ensures result && !sa.IBGP ==> !spec_hasCommunity(p, types.WellKnownCommunityNoExport)
+//@   ensures result && p.Type == route.BGPPathType && sa.Type == route.BGPPathType ==> *p.BGPPath.BGPPathA.Source != *sa.PeerIP
+//@   modifies nothing
